@@ -280,6 +280,17 @@ class LinkedList(Generic[T]):
         self.tail_node = None
         self._size = 0
 
+    # The nodes hold weak references, which can neither be pickled nor be
+    # deep-copied meaningfully: serialise the values and rebuild the nodes.
+    def __getstate__(self):
+        # type: () -> List[T]
+        return list(self)
+
+    def __setstate__(self, state):
+        # type: (List[T]) -> None
+        self.clear()
+        self.extend(state)
+
 
 class OrderedSet(object):
     """A set-like object that preserves order when iterating over it
@@ -323,6 +334,14 @@ class OrderedSet(object):
         node = self.__table[item]
         del self.__table[item]
         self.__order.remove_node(node)
+
+    def __getstate__(self):
+        # type: () -> List[str]
+        return list(self)
+
+    def __setstate__(self, state):
+        # type: (List[str]) -> None
+        self.__init__(state)    # type: ignore
 
     def __iter__(self):
         # type: () -> Iterator[str]
